@@ -139,6 +139,7 @@ def run(ctx):
                 mism.append({"model": line[:300], "impl": want[:300], "case": c[3]})
     ctx.correspondence("Model.Reverse.reverse_path (once, twice) vs taskgen.reverse_path", len(cases), mism)
     schedule_level(ctx)
+    host_and_history_cases(ctx)
     ctx.explanation = ("8 theorems for ALL paths (any segment lengths, all 8 switch classes): involution, waypoint order, switch flipping, "
                        "position-wise inversion, schedule-level involution and mutual reversal for an arbitrary tracer; inv() table reflected "
                        "from the live classes; reverse_path compared on generated and traced paths; schedule level on three Gen routes")
@@ -296,6 +297,48 @@ def schedule_level(ctx):
                 ctx.fail({"kind": "schedule-level", "problem": "routes disagree"}, {"kernel": body, "args": repr(args)},
                          "the Gen routes yield different paths for the same calls")
     ctx.count("schedule_level_runs", n)
+
+
+def host_and_history_cases(ctx):
+    """device functions BUILT ON THE HOST and used as globals of a kernel (forward and reversed objects, reversed again inside the kernel),
+    and ONE reverse statement evaluated several times with different operands (a subroutine reversing its parameter, a loop that keeps
+    reversing): every play is the traced path or its exact reversal, as the source says"""
+    from kirin.dialects import ilist
+    from bloqade.shuttle.dialects.schedule import DeviceFunction, ReverseDeviceFunction
+    S = tweezer_prog.harness_spec()
+    k = kernels.define("@tweezer\ndef k(x: float, y: float):\n    g = grid.from_positions([x, x + 2.0], [y])\n    action.set_loc(g)\n    action.turn_on([0, 1], action.ALL)\n"
+                       "    action.move(grid.shift(g, 1.0, 0.5))\n    action.move(grid.shift(g, 1.0, 2.5))\n")["k"]
+    FWD = DeviceFunction(move_fn=k, x_tones=ilist.IList([0, 1]), y_tones=ilist.IList([0]))
+    BWD = ReverseDeviceFunction(FWD)
+    fwd = tc.abstract_path(tc.run_impl(k, (1.0, 0.5), S)[1])
+    rev = _rev_abs(fwd)
+    progs = {
+        "host-built device functions": ("def main(x: float, y: float):\n    FWD(x, y)\n    BWD(x, y)\n    schedule.reverse(BWD)(x, y)\n    schedule.reverse(schedule.reverse(FWD))(x, y)\n"
+                                        "    schedule.reverse(FWD)(x, y)\n    schedule.reverse(schedule.reverse(BWD))(y=y, x=x)\n", "frffrr"),
+        "one reverse statement, several operands": ("def flip(d, x: float, y: float):\n    schedule.reverse(d)(x, y)\n\n@move{DEC}\ndef main(x: float, y: float):\n"
+                                                    "    f = schedule.device_fn(k, [0, 1], [0])\n    r = schedule.reverse(f)\n    flip(f, x, y)\n    flip(r, x, y)\n    flip(f, x, y)\n"
+                                                    "    flip(BWD, x, y)\n", "rfrf"),
+        "a loop that keeps reversing": ("def main(x: float, y: float):\n    g = schedule.device_fn(k, [0, 1], [0])\n    i = 0\n    for i in range(5):\n        g(x, y)\n        g = schedule.reverse(g)\n", "frfrf"),
+    }
+    n = 0
+    for label, (body, want) in progs.items():
+        for dec, plain in (("", False), ("(fold=False)", False), ("(arch_spec=S)", True), ("(arch_spec=S, fold=False)", True)):
+            src = ("@move" + ("" if "def flip" in body else dec) + "\n" + body).replace("{DEC}", dec)
+            rep = {"kind": "schedule", "kernel": "host / history", "move": src, "route": dec or "default", "case": label}
+            ctx.evaluations += 1
+            n += 1
+            try:
+                m = kernels.define(src, S=S, k=k, FWD=FWD, BWD=BWD)["main"]
+                st, evs, extra = events.run_events(m, (1.0, 0.5), S, plain=plain)
+            except Exception as e:
+                st, evs, extra = "err", [], f"{type(e).__name__}: {e}"
+            got = "".join("f" if tc.abstract_path(e[1].path) == fwd else "r" if tc.abstract_path(e[1].path) == rev else "?" for e in evs if e[0] == "play") if st == "ok" else "ERR " + str(extra)[:80]
+            if got != want:
+                ctx.fail({"kind": "schedule-level", "route": dec or "default", "problem": "forward / reversed plays differ from the source", "case": label}, rep,
+                         f"@move{dec}, {label}: the plays are {got} (f = the traced path, r = its reversal) but the source says {want}")
+            else:
+                ctx.nt(("host-history", label, dec))
+    ctx.count("host-built device functions / one reverse statement with several operands x 4 routes", n)
 
 
 def _rev_abs(ap):
